@@ -189,6 +189,74 @@ pub fn l3_case(delta: u64, seed: u64, l: &mut Local) {
     }
 }
 
+/// L3 for the unique records of an instance: its TXT (or SRV) is replaced with the cache-flush
+/// bit, and `delta` ms later replaced back to the earlier value. Older than a second, the
+/// first record has been flushed: the return is a new record and must be reported, and it
+/// flushes the value in between in turn. Within the same second nothing was displaced: both
+/// records are held and nothing is judged.
+pub fn l3_unique_case(delta: u64, seed: u64, l: &mut Local) {
+    use crate::scen::Svc;
+    let mut rng = Rng::new(seed);
+    let mut w = World::new(seed);
+    w.set_stepping(Stepping::Lazy);
+    let h = w.add_host(scen::single_v4());
+    w.set_ip_check_interval(h, 3600);
+    let Some(chan) = w.browse(h, browser::TY) else { return };
+    w.run_for(rng.below(500));
+    let txt_variant = rng.chance(1, 2);
+    let mut a = Svc::new(browser::TY, "toggler", "toggler-host.local", [10, 0, 0, 70]);
+    a.ttl_txt = 4500;
+    a.ttl_srv = 120;
+    a.txt = wire::txt_encode(&[(b"state".to_vec(), Some(b"off".to_vec()))]);
+    let mut b = a.clone();
+    if txt_variant {
+        b.txt = wire::txt_encode(&[(b"state".to_vec(), Some(b"on".to_vec()))]);
+    } else {
+        b.port = a.port + 1;
+    }
+    let flushed = |s: &Svc| {
+        let mut m = Message::response();
+        let mut r = if txt_variant { s.txt() } else { s.srv() };
+        r.class |= wire::FLUSH;
+        m.answers.push(r);
+        m
+    };
+    w.inject_msg(h, 2, scen::peer4(70), &a.announce());
+    w.run_for(1500 + rng.below(1500));
+    w.inject_msg(h, 2, scen::peer4(70), &flushed(&b)); // a -> b
+    let t_b = w.now();
+    w.run_until(t_b + delta);
+    w.inject_msg(h, 2, scen::peer4(70), &flushed(&a)); // b -> a again
+    let t_back = w.now();
+    w.run_until(t_back + 2500);
+    // something unrelated happens to the instance: a further address (forces a fresh ServiceResolved)
+    let mut m = Message::response();
+    m.answers.push(wire::a(&a.host, 120, [10, 0, 0, 71]));
+    w.inject_msg(h, 2, scen::peer4(70), &m);
+    let t_more = w.now();
+    w.run_until(t_more + 1500);
+    l.evaluations += 1;
+    l.distinct.insert(util::fnv_str(&format!("L3u|{delta}|{txt_variant}")));
+    l.act("L3");
+    let shows_a = |r: &mdns_sd::ResolvedService| if txt_variant { r.txt_properties.get_property_val_str("state") == Some("off") } else { r.port == a.port };
+    let events: Vec<(u64, bool)> = w.trace.obs(chan).filter_map(|(e, o)| if let Obs::Resolved(r) = o { Some((e.t, shows_a(r))) } else { None }).collect();
+    let what = if txt_variant { "txt" } else { "srv" };
+    let wit = || json!({"delta_ms": delta, "record": what, "resolved_events_ms_and_shows_first_value": events.iter().map(|(t, a)| (*t as i64 - t_b as i64, *a)).collect::<Vec<_>>(), "trace": w.trace.render(0, 40)});
+    // older than a second: the first record was flushed, so its return must be reported at once
+    if delta > 1001 && !events.iter().any(|(t, a)| *t >= t_back && *t <= t_back + 1 && *a) {
+        l.violate(Violation::new("L3", format!("L3/return-to-flushed-value-not-reported/{what}"), format!("the {what} record went back to its first value {delta} ms after being replaced (cache-flush): no ServiceResolved reported it")).with(wit()));
+        return;
+    }
+    // ... and the value in between was itself flushed by the return: from a second later on it is not shown any more
+    // (younger than a second it was not displaced at all: both records are held, either may be shown)
+    if delta <= 1001 {
+        return;
+    }
+    if let Some((t, _)) = events.iter().find(|(t, a)| *t > t_back + 1001 && !*a) {
+        l.violate(Violation::new("L3", format!("L3/displaced-value-reported-again/{what}"), format!("{} ms after the {what} record went back to its first value a ServiceResolved shows the displaced one", t - t_back)).with(wit()));
+    }
+}
+
 /// L1 under late wake-ups: nothing past its expiry is shown in a newly built event.
 pub fn l1_case(seed: u64, l: &mut Local) {
     set_overrides(Some(Overrides { stepping: Some(Stepping::Oversleep(if seed % 2 == 0 { 3000 } else { 800 })), record_gates: false, snapshot_level: 0, jitter_const: None }));
